@@ -120,7 +120,40 @@ def _xform(stmts, k, retvar):
             body = st.body[:-1] + _set_ret(retvar, st.body[-1].value, st.body[-1])
             return [ast.copy_location(ast.With(items=st.items, body=body), st)]
         raise CannotInline("return nested in a with body")
+    if isinstance(st, ast.For) and not st.orelse and not _has_return_list(st.orelse) and not _own_breaks(st.body):
+        # `for x in xs: ... return v ...` followed by K  ==  `for x in xs: ... retvar = v; break ...` / `else: K`
+        body = _loop_ret(st.body, retvar)
+        orelse = K or [ast.copy_location(ast.Pass(), st)]
+        return [ast.copy_location(ast.For(target=st.target, iter=st.iter, body=body, orelse=orelse, type_comment=None), st)]
     raise CannotInline("return inside %s" % type(st).__name__)
+
+
+def _own_breaks(stmts):
+    """break statements that leave the loop whose body is `stmts`"""
+    out = []
+    stack = list(stmts)
+    while stack:
+        n = stack.pop()
+        if isinstance(n, ast.Break):
+            out.append(n)
+        elif not isinstance(n, (ast.For, ast.While, ast.AsyncFor, ast.FunctionDef, ast.AsyncFunctionDef, ast.ClassDef, ast.Lambda)):
+            stack.extend(ast.iter_child_nodes(n))
+    return out
+
+
+def _loop_ret(stmts, retvar):
+    """Loop body in which `return v` becomes `retvar = v; break` (returns only under ifs of this loop)."""
+    out = []
+    for st in stmts:
+        if isinstance(st, ast.Return):
+            return out + _set_ret(retvar, st.value, st) + [ast.copy_location(ast.Break(), st)]
+        if not _has_return(st):
+            out.append(st)
+        elif isinstance(st, ast.If):
+            out.append(ast.copy_location(ast.If(test=st.test, body=_loop_ret(st.body, retvar), orelse=_loop_ret(st.orelse, retvar)), st))
+        else:
+            raise CannotInline("return inside %s nested in a loop" % type(st).__name__)
+    return out
 
 
 def _has_return_list(stmts):
